@@ -209,7 +209,7 @@ def run(tier, seed_):
     jobs = common.NCPU
     recs = []
     with ProcessPoolExecutor(max_workers=jobs) as ex:
-        for part in ex.map(_worker, [(behs[i::jobs], i * 1000000) for i in range(jobs) if behs[i::jobs]]):
+        for part in ex.map(_worker, [(behs[i::jobs], i * 1000030) for i in range(jobs) if behs[i::jobs]]):
             recs += part
     # TraceNets needs a uniform slot sequence length
     log(f"[C07] {len(behs)} behaviours x 3 classes replayed: {len(recs)} steps ({t():.0f}s)")
